@@ -401,9 +401,10 @@ impl Transaction {
     //
     pub fn create_rebroadcast_bound_transaction(
         transaction_to_rebroadcast: &Transaction,
-        slip1: Slip, // first Bound slip
-        slip2: Slip, // Normal slip (amount already includes payout)
-        slip3: Slip, // second Bound slip
+        slip1: Slip,   // first Bound slip
+        slip2: Slip,   // payload slip as it is consumed (amount already includes payout)
+        output2: Slip, // payload slip as it is re-issued (payout less the rebroadcast fee)
+        slip3: Slip,   // second Bound slip
     ) -> Transaction {
         let mut tx = Transaction::default();
         tx.transaction_type = TransactionType::ATR;
@@ -434,7 +435,7 @@ impl Transaction {
         //
         tx.add_to_slip(slip1);
         {
-            let mut output2 = slip2.clone();
+            let mut output2 = output2;
             output2.slip_type = SlipType::ATR;
             tx.add_to_slip(output2);
         }
